@@ -14,6 +14,7 @@ import (
 
 	"github.com/btcsuite/btcd/blockchain"
 	"github.com/btcsuite/btcd/chainhash/v2"
+	"github.com/btcsuite/btcd/database"
 )
 
 func famOf(r *mon.Rand) string {
@@ -243,6 +244,60 @@ func runReconsider(k *mon.Case) {
 	k.Eval(mon.Sig("recon", fam, len(s.Ops), s.Tip.Hash.String()[:8]), true)
 }
 
+// faultDB fails one View call (a database read) when armed: the skip-th call after arming.
+type faultDB struct {
+	database.DB
+	armed bool
+	skip  int
+	fired bool
+}
+
+func (f *faultDB) View(fn func(tx database.Tx) error) error {
+	if f.armed && !f.fired {
+		if f.skip == 0 {
+			f.fired = true
+			return database.Error{ErrorCode: database.ErrDriverSpecific, Description: "injected transient read failure"}
+		}
+		f.skip--
+	}
+	return f.DB.View(fn)
+}
+
+// runFault: a valid block that extends the tip is delivered while one database read fails; afterwards the same
+// block and its child are delivered normally. The transient failure must not brand the block invalid.
+func runFault(k *mon.Case) {
+	r := k.Rand
+	fam := famOf(r)
+	g := chaingen.New(node.NewParams(fam), fam, r)
+	g.MaxTx = 3
+	var fdb *faultDB
+	s, err := sim.New(k, g, node.Config{UtxoCacheMaxSize: []uint64{0, 4096, 1 << 25}[r.Intn(3)],
+		WrapDB: func(db database.DB) database.DB { fdb = &faultDB{DB: db}; return fdb }})
+	if err != nil {
+		k.Failf("harness:open", "cannot open node: %v", err)
+		return
+	}
+	defer s.Destroy()
+	g.ClockNow = s.N.Clock.Now()
+	k.Desc(map[string]any{"family": fam, "mode": "read-fault"})
+	tip := g.Tree.Genesis
+	for i := 0; i < 8+r.Intn(6); i++ {
+		tip = g.Block(r, tip, chaingen.BlockOpts{NTx: -1, Easy: r.Bool()})
+		s.DeliverBlock(tip)
+	}
+	for i := 0; i < 6 && !s.Failed; i++ {
+		b := g.Block(r, s.Tip, chaingen.BlockOpts{NTx: 1 + r.Intn(3), Easy: r.Bool()})
+		skip := r.Intn(6)
+		s.DeliverBlockFaulted(b, func() { fdb.armed, fdb.skip, fdb.fired = true, skip, false }, func() bool { fdb.armed = false; return fdb.fired })
+		if s.Failed {
+			break
+		}
+		c := g.Block(r, s.Tip, chaingen.BlockOpts{NTx: -1, Easy: r.Bool()})
+		s.DeliverBlock(c)
+	}
+	k.Eval(mon.Sig("fault", fam, len(s.Ops), s.Tip.Hash.String()[:8]), true)
+}
+
 // concurrent readers hammering the chain's read API while one goroutine delivers blocks (race detector).
 func runConcurrent(k *mon.Case) {
 	r := k.Rand
@@ -327,6 +382,8 @@ func main() {
 		c.Family("tree", c.N(400, 20000), func(k *mon.Case) { runTree(k, false) })
 		c.Family("manual", c.N(300, 12000), func(k *mon.Case) { runTree(k, true) })
 		c.Family("reconsider", c.N(56, 2000), runReconsider)
+		c.Family("read-fault", c.N(56, 2000), runFault)
+		c.Require("fault.read_failure_fired", 20)
 		c.Require("reconsider.below_failed_descendant", 20)
 		c.Require("tip.reorg_multiblock", 5)
 		c.Require("deliver.orphan_cascade", 20)
